@@ -1,7 +1,7 @@
 // C03 — Every label reference resolves to the position where the label was bound.
 // C04 — Relocated code addresses its absolute targets correctly at any base address.   (same harness, --mode=c04)
 //
-// Case: cfg = [arch(0 x64,1 x86,2 a64), nsections, nlabels, base_sel, base_mode, flags]   ops = program steps (see decode below).
+// Case: cfg = [arch(0 x64,1 x86,2 a64), nsections, nlabels, base_sel, base_mode, flags, spread (user-defined section offsets)]   ops = program steps (see decode below).
 // Oracle: a reference layout model owned by the harness (where each item and each label lies, from offset() before/after every call and
 // the section offsets after flatten()) + independent field decoders written from the architecture manuals. For every reference site the
 // decoded displacement / address must designate exactly label position + addend (C03) or the requested absolute target (C04); a
@@ -47,6 +47,9 @@ struct Ref {
 
 static const int64_t kPads[] = {0, 1, 2, 3, 5, 8, 16, 100, 118, 119, 120, 121, 122, 123, 124, 125, 126, 127, 128, 129, 130, 131, 200, 250, 256, 1000,
                                 32740, 32752, 32756, 32760, 32764, 32768, 32772, 40000, 1048560, 1048568, 1048572, 1048576, 1048580, 1100000};
+// gaps for user-defined section layouts (cfg[6]); the x86-32 address space only admits the small ones
+static const uint64_t kGaps[] = {0x7FFFFFC0ull, 0x7FFFFFF8ull, 0x80000000ull, 0x80000010ull, 0xFFFFFFE0ull, 0x100000000ull, 0x100000040ull, 0x200000000ull,
+                                 0x7FFFFE0ull, 0x8000000ull, 0x8000020ull, 0xFFFF0ull, 0x100000ull, 0x100010ull, 0x7FF8ull, 0x8000ull};
 static const int kNPads = int(sizeof(kPads) / sizeof(kPads[0]));
 static const uint64_t kBases[] = {0x1000, 0x10000, 0x7FFF0000ull, 0x80000000ull, 0xFFFF0000ull, 0x100000000ull, 0x7FFFFFFF0000ull, 0x00007FFFFFFE0000ull,
                                   0x7FFFFFFFFFFF0000ull, 0x8000000000000000ull, 0xFFFFFFFFFFFE0000ull, 0x12345000};
@@ -67,9 +70,12 @@ rc::Gen<vh::Case> vh_gen(const vh::Opts&) {
     else op = {6, *vh::irange<int>(0, 7), *vh::irange<int>(0, 11), *vh::irange<int>(0, 6)};
     return op;
   });
-  return gen::apply([](int arch, int nsec, int nlab, int bsel, int bmode, int flags, std::vector<vh::Op> ops) {
-      vh::Case c; c.cfg = {arch, nsec, nlab, bsel, bmode, flags}; c.ops = std::move(ops); return c; },
-    vh::irange<int>(0, 2), vh::irange<int>(1, 3), vh::irange<int>(1, 8), vh::irange<int>(0, 11), vh::irange<int>(0, 1), vh::irange<int>(0, 7),
+  // cfg[6]: 0 = layout by flatten() (75%), otherwise the user lays the sections out with Section::set_offset(): gaps around the range
+  // limits of the wide formats (rel32 +-2 GiB, 4 GiB, b/bl +-128 MiB, b.cond/adr +-1 MiB, tbz +-32 KiB) between consecutive sections.
+  auto spreadGen = gen::exec([]() -> int { return *vh::irange<int>(0, 99) < 75 ? 0 : *vh::irange<int>(1, 4095); });
+  return gen::apply([](int arch, int nsec, int nlab, int bsel, int bmode, int flags, int spread, std::vector<vh::Op> ops) {
+      vh::Case c; c.cfg = {arch, nsec, nlab, bsel, bmode, flags, spread}; c.ops = std::move(ops); return c; },
+    vh::irange<int>(0, 2), vh::irange<int>(1, 3), vh::irange<int>(1, 8), vh::irange<int>(0, 11), vh::irange<int>(0, 1), vh::irange<int>(0, 7), spreadGen,
     gen::container<std::vector<vh::Op>>(opGen));
 }
 
@@ -321,16 +327,40 @@ void vh_run(const vh::Case& c, vh::Ctx& ctx) {
   // ---- layout, resolution, relocation ----
   Error ef = code.flatten();
   VH_CHECK(ctx, ef == Error::kOk, "flatten-failed", "%s: flatten() -> %s", an, DebugUtils::error_as_string(ef));
+  // user-defined layout: keep the order, open large gaps between consecutive sections (all sections, incl. a generated .addrtab)
+  int spread = (c.cfg.size() > 6 && !g_c04 && nsec >= 2) ? int(uint64_t(c.cfg[6]) % 4096) : 0;
+  bool has_abs_ref = false;
+  for (const Ref& r : refs) if (r.kind >= X_ABS_MEM) has_abs_ref = true;
+  if (has_abs_ref) spread = 0;
+  if (spread) {
+    uint64_t pos = 0; int i = 0;
+    for (Section* s : code.sections_by_order()) {
+      if (i > 0 && i < nsec) {
+        int sel = (spread >> (4 * (i - 1))) & 15;
+        uint64_t gap = kGaps[sel];
+        if (arch == A_X86 && gap >= 0x10000000ull) gap = kGaps[8 + (sel & 7)] & 0xFFFFFFull;
+        pos += gap;
+      }
+      uint64_t al = s->alignment() ? s->alignment() : 1;
+      pos = (pos + al - 1) / al * al;
+      s->set_offset(pos);
+      pos += s->real_size();
+      i++;
+    }
+    ctx.cls("layout_user_defined_spread");
+  }
   Error er = code.resolve_cross_section_fixups();
   if (er != Error::kOk) ctx.cls("resolve_reported_error");
   size_t unresolved = code.unresolved_fixup_count();
   Error el = Error::kOk;
   bool relocated = false;
   if (unresolved == 0 || g_c04) { CodeHolder::RelocationSummary sum; el = code.relocate_to_base(base, &sum); relocated = el == Error::kOk; if (el != Error::kOk) ctx.cls("relocate_reported_error"); }
-  size_t csz = code.code_size();
+  size_t csz = spread ? 0 : code.code_size();
   std::vector<uint8_t> img(csz + 16, 0xCC);
-  Error ec = code.copy_flattened_data(img.data(), csz, CopySectionFlags::kPadSectionBuffer);
-  VH_CHECK(ctx, ec == Error::kOk, "copy-failed", "%s: copy_flattened_data -> %s", an, DebugUtils::error_as_string(ec));
+  if (!spread) {
+    Error ec = code.copy_flattened_data(img.data(), csz, CopySectionFlags::kPadSectionBuffer);
+    VH_CHECK(ctx, ec == Error::kOk, "copy-failed", "%s: copy_flattened_data -> %s", an, DebugUtils::error_as_string(ec));
+  }
   auto sec_off = [&](uint32_t s) { return secs[s]->offset(); };
   auto label_addr = [&](int l) -> uint64_t { return sec_off(lm[size_t(l)].sec) + lm[size_t(l)].off; };
 
@@ -348,7 +378,7 @@ void vh_run(const vh::Case& c, vh::Ctx& ctx) {
   auto CLS = [&](const char* name) { if (phase == 1) ctx.cls(name); };
   for (const Ref& r : refs) {
     uint64_t site = sec_off(r.sec) + r.off0;
-    const uint8_t* p = img.data() + site;
+    const uint8_t* p = spread ? secs[r.sec]->buffer().data() + r.off0 : img.data() + site;      // a spread image is too large to materialise
     size_t plen = r.off1 - r.off0;
     std::string where = std::string(an) + ": " + r.what + " at " + std::to_string(site) + " [" + hexs(p, plen) + "]";
     bool is_abs_kind = r.kind >= X_ABS_MEM;
@@ -430,6 +460,8 @@ void vh_run(const vh::Case& c, vh::Ctx& ctx) {
     int64_t lim = d.disp_size == 1 ? 128 : (int64_t(1) << 31);
     bool fits = need < lim && need >= -lim;
     if (llabs(need) > 120 && llabs(need) < 136) near_limit++;
+    if (d.disp_size != 1 && llabs(need) > (int64_t(1) << 31) - 4096 && llabs(need) < (int64_t(1) << 31) + 4096) { near_limit++; CLS("rel32_near_2gib_limit"); }
+    if (d.disp_size != 1 && !fits) CLS("rel32_out_of_range");
     if (is_abs_kind && !fits) reloc_should_fail = true;
     if (is_abs_kind && !relocated) { CLS("abs_not_relocated"); continue; }
     if (fits) {
